@@ -44,7 +44,8 @@ static struct {
 	/* notes */
 	nsync_note note[MAXOBJ]; int nnotes; int freed[MAXOBJ]; int notify_called[MAXOBJ]; int parent_of[MAXOBJ]; int dl_of[MAXOBJ];
 	char *nwbase[RT_MAXT]; int wobjs[RT_MAXT][8]; int nwobjs[RT_MAXT]; int nwheap[RT_MAXT]; int nwinit[RT_MAXT];
-	int seen_notified[MAXOBJ]; int called[MAXOBJ]; int lpar[MAXOBJ]; int pending_new[RT_MAXT];
+	waiter *wt[RT_MAXT]; int swnote[RT_MAXT], swlive[RT_MAXT]; long vgiven[RT_MAXT], vtaken[RT_MAXT];
+	int seen_notified[MAXOBJ]; int called[MAXOBJ]; int lpar[MAXOBJ]; int pending_new[RT_MAXT]; int notify_returned[MAXOBJ];
 	int ideal;
 	int *cells;          /* client data for the happens-before oracle (C03), one cell per thread */
 	int hbdata;
@@ -82,12 +83,12 @@ static void client (void *arg) {
 			/* the wait that owned this on-stack record has returned: nobody may touch it any more (C13) */
 			rt_dead_clear (t);
 			if (S.kind == K_NOTE && S.nwbase[t]) { if (!S.nwheap[t]) rt_dead_mark (S.nwbase[t], sizeof (struct nsync_waiter_s) * (size_t) (S.nwobjs[t] ? S.nwobjs[t] : 1), t, "nsync_wait_n record"); }
-			else rt_dead_mark ((char *) S.nwrec[t] - offsetof (struct nsync_waiter_s, waiting), sizeof (struct nsync_waiter_s), t, "nsync_wait_n record");
+			else rt_dead_mark ((char *) S.nwrec[t] - offsetof (struct nsync_waiter_s, waiting), sizeof (struct nsync_waiter_s), t, S.swnote[t] ? "nsync_sem_wait_with_cancel_ record" : "nsync_wait_n record");
 		}
-		S.nwrec[t] = NULL;
+		S.nwrec[t] = NULL; S.swnote[t] = 0;
 		if (ip >= S.nops[t]) break;
 		o = &S.prog[t][ip];
-		if (!strcmp (o->name, "wait") || !strcmp (o->name, "waitn")) rt_dead_clear (t);      /* a new wait may reuse the same stack bytes */
+		if (!strcmp (o->name, "wait") || !strcmp (o->name, "waitn") || !strcmp (o->name, "swc")) rt_dead_clear (t);      /* a new wait may reuse the same stack bytes */
 		if (S.kind == K_COUNTER) {
 			if (!strcmp (o->name, "add")) {
 				uint32_t r;
@@ -138,9 +139,11 @@ static void client (void *arg) {
 				nsync_note_notify (S.note[a]);
 				if (*(volatile uint32_t *) &S.note[a]->notified == 0) rt_violation ("O-lin", "nsync_note_notify(note %d) returned but the note is not notified", a);
 				S.seen_notified[a] = 1;
+				S.notify_returned[a] = 1;
 				S.ret[t] = 1;
 			} else if (!strcmp (o->name, "poll") || !strcmp (o->name, "wait")) {
-				int r;
+				int r, must = 0;
+				{ int x = a, k; for (k = 0; k < MAXOBJ && x != 0; k++, x = S.lpar[x]) if (S.notify_returned[x]) must = 1; }   /* an ancestor's (or its own) notify has returned before this observation began */
 				if (!strcmp (o->name, "wait")) { S.wobjs[t][0] = a; S.nwobjs[t] = 1; S.nwbase[t] = NULL; S.nwinit[t] = 0; }
 				r = !strcmp (o->name, "poll") ? nsync_note_is_notified (S.note[a]) : nsync_note_wait (S.note[a], deadline (o->dl));
 				if (r) {
@@ -150,6 +153,7 @@ static void client (void *arg) {
 					if (!cause) rt_violation ("O-lin", "note %d observed notified although neither it nor an ancestor was notified and no deadline on that path has passed", a);
 					S.seen_notified[a] = 1;
 				} else {
+					if (must) rt_violation ("O-lin", "note %d observed un-notified although nsync_note_notify of it or of an ancestor had already returned", a);
 					if (S.seen_notified[a]) rt_violation ("O-lin", "note %d observed un-notified after it had been observed notified", a);
 					if (!strcmp (o->name, "wait") && !expired (o->dl)) rt_violation ("O-ret", "nsync_note_wait(note %d) timed out at clock %ld before its deadline %d", a, (long) (rt_now () - RT_T0), o->dl);
 				}
@@ -170,6 +174,24 @@ static void client (void *arg) {
 					if (!expired (o->dl)) rt_violation ("O-ret", "nsync_wait_n returned count (timeout) at clock %ld before its deadline %d", (long) (rt_now () - RT_T0), o->dl);
 				}
 				S.ret[t] = r;
+			} else if (!strcmp (o->name, "swc")) {
+				/* nsync_sem_wait_with_cancel_ (this thread's waiter, dl, note a or NULL): what cv / mu waiters with a cancel note sleep in */
+				int r, must = 0, x, k, cause = 0;
+				for (k = 0, x = a; k < MAXOBJ && x != 0; k++, x = S.lpar[x]) if (S.notify_returned[x]) must = 1;
+				S.nwobjs[t] = 0; S.nwbase[t] = NULL; S.swnote[t] = a;
+				S.swlive[t] = 1;
+				r = nsync_sem_wait_with_cancel_ (S.wt[t], deadline (o->dl), a ? S.note[a] : NULL);
+				S.swlive[t] = 0;
+				for (k = 0, x = a; k < MAXOBJ && x != 0; k++, x = S.lpar[x]) if (S.called[x] || expired (S.dl_of[x])) cause = 1;
+				if (r == 0) { if (S.vgiven[t] <= S.vtaken[t]) rt_violation ("O-ret", "nsync_sem_wait_with_cancel_ returned 0 although the semaphore had not been V'ed"); S.vtaken[t]++; }
+				else if (r == ECANCELED) { if (!cause) rt_violation ("O-ret", "nsync_sem_wait_with_cancel_ returned ECANCELED but note %d has no reason to be notified", a); }
+				else if (r == ETIMEDOUT) { if (!expired (o->dl)) rt_violation ("O-ret", "nsync_sem_wait_with_cancel_ returned ETIMEDOUT at clock %ld before its deadline %d", (long) (rt_now () - RT_T0), o->dl); }
+				else rt_violation ("O-ret", "nsync_sem_wait_with_cancel_ returned %d", r);
+				if (must && r != ECANCELED) rt_violation ("O-lin", "nsync_sem_wait_with_cancel_ returned %d although nsync_note_notify of note %d or of an ancestor had returned before the call", r, a);
+				S.ret[t] = r;
+			} else if (!strcmp (o->name, "semv")) {
+				nsync_mu_semaphore_v (&S.wt[a - 1]->sem);
+				S.ret[t] = 0;
 			} else if (!strcmp (o->name, "free")) {
 				int x;
 				nsync_note_free (S.note[a]);
@@ -248,6 +270,7 @@ static void setup (const char *init) {
 			}
 		}
 		p = strstr (cur_init, "NN="); S.nnotes = p ? atoi (p + 3) : 4;
+		if (strstr (cur_init, "swc.")) for (i = 0; i < S.n; i++) { char nm[16]; S.wt[i] = nsync_waiter_new_ (); snprintf (nm, sizeof nm, "waiter%d", i + 1); rt_name (S.wt[i], sizeof *S.wt[i], nm); }
 	}
 	for (i = 0; i < S.n; i++) { S.ret[i] = -1; rt_spawn (client, (void *) (long) i); }
 }
@@ -291,7 +314,7 @@ static size_t put_note_list (char *buf, size_t n, nsync_dll_list_ list) {
 #define PUTARR(name, expr) do { o += (size_t) snprintf (buf + o, n - o, " " name "=["); \
 	for (i = 0; i < S.n; i++) o += (size_t) snprintf (buf + o, n - o, "%s%d", i ? "," : "", (int) (expr)); \
 	o += (size_t) snprintf (buf + o, n - o, "]"); } while (0)
-static int sem_of (int i) { waiter *w = (waiter *) rt_tls_waiter (i); return w ? *(volatile int *) &w->sem : 0; }
+static int sem_of (int i) { waiter *w = S.wt[i] ? S.wt[i] : (waiter *) rt_tls_waiter (i); return w ? *(volatile int *) &w->sem : 0; }
 static void obs (char *buf, size_t n) {
 	size_t o = 0; int i;
 	if (S.kind == K_COUNTER) {
@@ -325,7 +348,8 @@ static void obs (char *buf, size_t n) {
 			for (k = 1; k <= S.nnotes; k++) {
 				int j, v = 0;
 				/* the record of thread i for note k, if its call is in progress and has reached it */
-				if (S.nwbase[i] && S.nwrec[i] && !(S.nwheap[i] && rt_is_freed (S.nwbase[i]))) for (j = 0; j < S.nwobjs[i] && j < S.nwinit[i]; j++) if (S.wobjs[i][j] == k) v = (int) *(volatile uint32_t *) (S.nwbase[i] + sizeof (struct nsync_waiter_s) * (size_t) j + offsetof (struct nsync_waiter_s, waiting));
+				if (S.swnote[i] == k && S.nwrec[i]) v = !S.swlive[i] ? 0 : (int) *(volatile uint32_t *) S.nwrec[i];
+				else if (S.nwbase[i] && S.nwrec[i] && !(S.nwheap[i] && rt_is_freed (S.nwbase[i]))) for (j = 0; j < S.nwobjs[i] && j < S.nwinit[i]; j++) if (S.wobjs[i][j] == k) v = (int) *(volatile uint32_t *) (S.nwbase[i] + sizeof (struct nsync_waiter_s) * (size_t) j + offsetof (struct nsync_waiter_s, waiting));
 				o += (size_t) snprintf (buf + o, n - o, "%s%d", k > 1 ? "," : "", v);
 			}
 			o += (size_t) snprintf (buf + o, n - o, "]");
@@ -370,6 +394,7 @@ static int pre (int actor, const char *label, const char *prev, const char *exp,
 }
 static void note_step (int t) {
 	const struct rt_op *o = rt_last (t);
+	if (S.kind == K_NOTE && o->kind == OP_SEMV) { int x; for (x = 0; x < S.n; x++) if (S.wt[x] && o->addr == (void *) &S.wt[x]->sem) S.vgiven[x]++; }
 	if ((o->kind == OP_ST || o->kind == OP_LD) && o->addr && rt_stack_owner (o->addr) >= 0) S.nwrec[rt_stack_owner (o->addr)] = o->addr;
 	if (S.kind == K_NOTE && o->kind == OP_ST && o->addr && S.nwbase[t] == NULL && S.nwobjs[t] > 0) {
 		char fb[64];
@@ -382,6 +407,23 @@ static void note_step (int t) {
 		S.hist[S.nhist++] = (int) o->b; S.expect[t] = (long) o->b;
 	}
 	if ((o->kind == OP_CAS && !o->ok) || o->kind == OP_SEMPD || o->kind == OP_LOCK) rp_mark_nontrivial ();
+	if (S.kind == K_NOTE) {
+		/* C08 / C05: once nsync_note_notify has returned, every waiter on that note or a descendant has been released:
+		   none of them may still be asleep (semaphore at 0, deadline ahead) in its wait */
+		int u;
+		for (u = 0; u < S.n; u++) if (rt_state (u) == F_PARKED && rt_pending (u)->kind == OP_SEMPD && !rt_enabled (u)) {
+			char fb[64]; int j, k, x, nob = S.swlive[u] ? (S.swnote[u] ? 1 : 0) : S.nwobjs[u];
+			rt_op_fn (rt_pending (u), fb, sizeof fb);
+			if (strcmp (fb, "nsync_sem_wait_with_cancel_") != 0 && strcmp (fb, "nsync_wait_n") != 0) continue;
+			for (j = 0; j < nob; j++) {
+				int a = S.swlive[u] ? S.swnote[u] : S.wobjs[u][j];
+				for (k = 0, x = a; k < MAXOBJ && x != 0; k++, x = S.lpar[x]) if (S.notify_returned[x]) {
+					rt_violation ("O-prog", "thread %d is still asleep in %s on note %d although nsync_note_notify of note %d had returned", u + 1, fb, a, x);
+					return;
+				}
+			}
+		}
+	}
 }
 static void post (int actor, const char *label) { (void) label; note_step (actor - 1); }
 static void env (const char *label, const char *exp) { (void) exp; if (!strcmp (label, "Tick")) rt_tick (); }
@@ -485,6 +527,7 @@ int main (int argc, char **argv) {
 	if (argc < 3) { fprintf (stderr, "usage: h_l2 replay <schedule> [violdir] | h_l2 random <runs> <seed> <init> [violdir]\n"); return 2; }
 	rt_init ();
 	rt_sem_single_step = 1;
+	rt_swc_region = 0;      /* sem_wait.c is code under test here: its steps are scheduled one by one */
 	rt_no_exit_dest = 1;
 	rt_track_stack_frames (1);
 	if (getenv ("VERIF_HB")) rt_hb_enable (1);
